@@ -13,7 +13,36 @@ pub fn lanes() -> Vec<Lane> {
     vec![
         Lane { name: "relations", count: |c| if c.thorough() { 1_000_000 } else { 200_000 }, run: relations_lane },
         Lane { name: "factorial", count: |_| 2 * 6 * 4 * 5 * 4, run: factorial_lane },
+        Lane { name: "long-numbers", count: |_| LONG_VERSIONS.len() as u64, run: long_numbers_lane },
     ]
+}
+
+/// valid versions with a digit run beyond 32 bits (date-stamped versions are common)
+const LONG_VERSIONS: [&str; 4] = ["0~git20240101120000-1", "1.20240101120000", "2147483648", "1:1.0+20240101120000"];
+
+fn long_numbers_lane(ctx: &mut Ctx, idx: u64) {
+    let mut m = MRel::simple("foo");
+    m.version = Some((">=".to_string(), LONG_VERSIONS[idx as usize].to_string()));
+    let res = guard(1024, || {
+        let x = to_lossy(&m);
+        let text = x.to_string();
+        let back = lossy::Relations::from_str(&text)?;
+        let eq = back.0.len() == 1 && back.0[0].len() == 1 && back.0[0][0] == x;
+        let conv = lossy::Relation::from(debian_control::lossless::relations::Relation::from(x.clone())) == x;
+        Ok::<_, String>((text, eq, conv))
+    });
+    ctx.count("evaluations");
+    match res {
+        Err(f) => ctx.violation(&format!("{}|lossy::Relation::eq|numeric-component-beyond-32-bits", f.class()), json!({"value": m.canonical(), "failure": f.json()})),
+        Ok(Err(e)) => ctx.violation("printed-form-rejected|lossy::Relations::from_str|numeric-component-beyond-32-bits", json!({"value": m.canonical(), "error": e})),
+        Ok(Ok((text, eq, conv))) => {
+            if !eq || !conv {
+                ctx.violation("roundtrip-unequal|lossy::Relation|numeric-component-beyond-32-bits", json!({"value": m.canonical(), "printed": text, "reparse_equal": eq, "conversion_equal": conv}));
+            }
+        }
+    }
+    ctx.distinct_exact += 1;
+    ctx.sample(|| json!({"value": m.canonical()}));
 }
 
 pub fn to_lossy(m: &MRel) -> lossy::Relation {
